@@ -95,6 +95,8 @@ class TreeGen:
         L.append('  int ok = (b.r == 1);')
         if s.action == 'bool' and r >= 0:      # vf::act_bool is attached to every identified rule (sub-rules included)
             L.append('  if (ok && a) { int v = c12_veto(%d, p); if (v == 2) { out_t x = { 3, p, %d, p, p }; return x; } if (v == 0) ok = 0; }' % (r, 3000 + r))
+        if s.action == 'void0' and r >= 0:     # vf::act0_void: a void apply0 cannot veto but it can throw (verdict asked with begin = 0)
+            L.append('  if (ok && a) { int v = c12_veto(%d, 0); if (v == 2) { out_t x = { 3, p, %d, p, p }; return x; } }' % (r, 3000 + r))
         if m is not None:
             L.append('  if (ok) { ts_close(i, b.pos, %d); return b; }' % m)
         else:
@@ -250,7 +252,7 @@ def wrapper_text(grammar, sel, defs, maxch, maxd, action=None):
     parts = ['parse_tree::%s::on< %s >' % (CXX_MODE[m], ', '.join(v)) for m, v in sorted(groups.items())]
     selector = 'template< typename Rule > using sel = parse_tree::selector< Rule, %s >;' % ', '.join(parts)
     types = [k for v in groups.values() for k in v]
-    act = 'vf::act_bool' if action == 'bool' else 'tao::pegtl::nothing'
+    act = 'vf::act_bool' if action == 'bool' else 'vf::act0_void' if action == 'void0' else 'tao::pegtl::nothing'
     return WRAP % {'maxch': maxch, 'maxd': maxd, 'preamble': '\n'.join(pre), 'grammar': repr(e), 'rids': '', 'selector': selector,
                    'types': ', '.join(types), 'selname': 'sel', 'action': act}
 
@@ -335,7 +337,7 @@ def harness_text(grammar, sel, doc, N, K, maxch, maxd, maxn, defs=None, maxrec=3
     par, kk, dep, off = slot_tables(maxch, maxd)
     rl = ['  REACH(%s, "%s");' % (c, m) for (c, m) in reach]
     text = HARNESS % {'N': N, 'K': K, 'maxres': maxres, 'maxch': maxch, 'maxd': maxd, 'maxn': maxn, 'total': len(par),
-                      'vetomax': 2 if action == 'bool' else 0,
+                      'vetomax': 2 if action in ('bool', 'void0') else 0,
                       'par': ', '.join(map(str, par)), 'k': ', '.join(map(str, kk)), 'dep': ', '.join(map(str, dep)), 'off': ', '.join(map(str, off)),
                       'spec': g.text(), 'top': top, 'lookahead': 1 if lookahead else 0, 'reach': '\n'.join(rl)}
     return text, g
